@@ -1394,3 +1394,286 @@ func joinComma(s []string) string {
 	}
 	return out
 }
+
+// ---------------------------------------------------------------------------
+// R19.7
+
+func init() {
+	register(&Rule{
+		ID: "R19.7", Props: []string{"C19", "C20"}, Engine: "difference-bound analysis (SSA)",
+		Text: "prefix rewriting never produces a name with a trailing slash: in patchInstanceName the remainder i[n:] is appended to the replacement prefix only where the dominating checks imply len(i) > n, i.e. the remainder is non-empty; the name that equals the old prefix exactly is answered with the slash-less replacement",
+		Floor: 1, MustExist: true, Run: runR197,
+	})
+}
+
+func runR197(c *Ctx) {
+	fn := c.Func(digestRel, "patchInstanceName")
+	if fn == nil {
+		c.Broken("digest.patchInstanceName not found")
+		return
+	}
+	bp := newBoundsProver(c, digestRel)
+	n := 0
+	allInstrs(fn, func(ins ssa.Instruction) {
+		bo, ok := ins.(*ssa.BinOp)
+		if !ok || bo.Op != token.ADD {
+			return
+		}
+		sl, ok := bo.Y.(*ssa.Slice)
+		if !ok || sl.High != nil || sl.Low == nil {
+			return
+		}
+		if bt, ok := sl.X.Type().Underlying().(*types.Basic); !ok || bt.Info()&types.IsString == 0 {
+			return
+		}
+		n++
+		lo := bp.norm(sl.Low)
+		ln := bAtom{lenOf: canonSlice(sl.X)}
+		ok = bp.prove(lo.a, ln, -1-lo.k, bp.factsAt(bo.Block()), map[string]int64{})
+		c.Check(ok, FuncName(fn), "non-empty-remainder", c.Pos(bo.Pos()), "the remainder appended to the prefix is non-empty", "the remainder of the name is appended to the replacement prefix without a dominating check that it is non-empty (len(name) > prefix length): a name equal to the old prefix is rewritten to the new prefix plus a trailing '/', which is not a valid instance name and matches no backend and no stored key")
+	})
+	if n == 0 {
+		c.Broken("patchInstanceName: no prefix + remainder concatenation found")
+	}
+}
+
+// ---------------------------------------------------------------------------
+// R15.5
+
+func init() {
+	register(&Rule{
+		ID: "R15.5", Props: []string{"C15"}, Engine: "counting conservation (SSA shape + call-site table)",
+		Text: "the multiplexer counts its consumers correctly: readAndShareWithOthers sends the result to every waiting consumer (a complete range over the waiting list), then expects for the next round exactly the consumers it just served plus its argument, and empties the waiting list; Read – whose caller stays – passes 1, Close – whose caller leaves – passes 0, and nothing else calls it; a consumer that has left must not be waited for, or the remaining consumers block forever",
+		Floor: 4, MustExist: true, Run: runR155,
+	})
+}
+
+func runR155(c *Ctx) {
+	helper := c.Method(bufferRel, "multiplexedChunkReader", "readAndShareWithOthers")
+	T := c.LookupType(bufferRel, "multiplexedChunkReader")
+	if helper == nil || T == nil || len(helper.Params) != 2 {
+		c.Broken("multiplexedChunkReader.readAndShareWithOthers(int) not found")
+		return
+	}
+	hname := FuncName(helper)
+	isFieldLoad := func(v ssa.Value, name string) bool {
+		f, base := loadedField(v)
+		return f != nil && f.Name() == name && isReceiverValue(helper, base)
+	}
+	// next round's expectation
+	var pendStore, waitStore *ssa.Store
+	allInstrs(helper, func(ins ssa.Instruction) {
+		if st, ok := ins.(*ssa.Store); ok {
+			if f := fieldOf(st.Addr); f != nil {
+				switch f.Name() {
+				case "pendingConsumers":
+					pendStore = st
+				case "waitingConsumers":
+					waitStore = st
+				}
+			}
+		}
+	})
+	okPend := false
+	if pendStore != nil {
+		if bo, ok := pendStore.Val.(*ssa.BinOp); ok && bo.Op == token.ADD {
+			isLenW := func(v ssa.Value) bool {
+				cl, ok := v.(*ssa.Call)
+				if !ok {
+					return false
+				}
+				bi, ok := cl.Call.Value.(*ssa.Builtin)
+				return ok && bi.Name() == "len" && isFieldLoad(cl.Call.Args[0], "waitingConsumers")
+			}
+			p := ssa.Value(helper.Params[1])
+			okPend = (isLenW(bo.X) && bo.Y == p) || (isLenW(bo.Y) && bo.X == p)
+		}
+	}
+	posOf := func(st *ssa.Store) string {
+		if st != nil {
+			return c.Pos(st.Pos())
+		}
+		return c.Pos(helper.Pos())
+	}
+	c.Check(okPend, hname, "next-round", posOf(pendStore), "pending := served waiters + argument", "the number of consumers expected for the next round is not (number of waiting consumers just served) + (the argument saying whether the caller continues)")
+	okWait := false
+	if waitStore != nil && pendStore != nil {
+		if sl, ok := waitStore.Val.(*ssa.Slice); ok && isFieldLoad(sl.X, "waitingConsumers") && sl.High != nil {
+			if k, isC := constInt(sl.High); isC && k == 0 {
+				// emptied after the count was taken
+				okWait = instrDominates(pendStore, waitStore)
+			}
+		}
+		if isNilConst(waitStore.Val) {
+			okWait = instrDominates(pendStore, waitStore)
+		}
+	}
+	c.Check(okWait, hname, "waiters-reset", posOf(waitStore), "the waiting list is emptied after it was counted", "the waiting list is not emptied after being counted (or is emptied before): served consumers would be served twice or miscounted")
+	// every waiter is served
+	served := false
+	allInstrs(helper, func(ins ssa.Instruction) {
+		snd, ok := ins.(*ssa.Send)
+		if !ok {
+			return
+		}
+		X, idx, isElem := rangeElemOf(snd.Chan)
+		if isElem && isFieldLoad(X, "waitingConsumers") && isFullRangeIndex(idx, X) {
+			served = true
+		}
+	})
+	c.Check(served, hname, "serve-all", c.Pos(helper.Pos()), "every waiting consumer receives the result", "the result is not sent to every waiting consumer (a complete range over the waiting list)")
+	// call sites
+	want := map[string]int64{"Read": 1, "Close": 0}
+	seen := map[string]bool{}
+	for _, tf := range c.pkgFuncs(bufferRel) {
+		withAnon(tf, func(g *ssa.Function) {
+			allInstrs(g, func(ins ssa.Instruction) {
+				cc := callOf(ins)
+				if cc == nil || cc.StaticCallee() != helper {
+					return
+				}
+				top := topFunc(g)
+				isMethod := top.Signature.Recv() != nil && isReceiverValue(g, cc.Args[0])
+				w, known := want[top.Name()]
+				if !isMethod || !known {
+					c.Fail(FuncName(g), "continues-flag", c.Pos(ins.Pos()), "readAndShareWithOthers is called from somewhere other than the multiplexer's own Read or Close")
+					return
+				}
+				seen[top.Name()] = true
+				k, isC := constInt(cc.Args[1])
+				role := "stays a consumer (Read)"
+				if w == 0 {
+					role = "leaves (Close)"
+				}
+				c.Check(isC && k == w, FuncName(g), "continues-flag", c.Pos(ins.Pos()), "the caller "+role, "the caller "+role+" but is counted differently for the next round: "+map[int64]string{0: "the multiplexer keeps waiting for a consumer that is gone, so every remaining clone blocks forever in its next Read and the source is never closed", 1: "a consumer that is still reading is not waited for, so it misses data or the source is closed under it"}[w])
+			})
+		})
+	}
+	for n := range want {
+		if !seen[n] {
+			c.Fail(hname, "continues-flag", c.Pos(helper.Pos()), "multiplexedChunkReader."+n+" no longer reads on behalf of the waiting consumers")
+		}
+	}
+}
+
+// ---------------------------------------------------------------------------
+// R14.6
+
+func init() {
+	register(&Rule{
+		ID: "R14.6", Props: []string{"C14"}, Engine: "path automaton with nil-knowledge (SSA)",
+		Text: "a failed upload is never reported as stored: in every function of pkg/blobstore/grpcclients that returns an error, on a path on which some call's error was found to be non-nil (Send failed, the encoder could not be obtained, the reader failed …) the error returned is not one the same path has established to be nil (the nil constant, or the result of a call whose nil edge was taken) – `return err` must refer to the failure, not to an earlier, successful call's err that happens to be in scope",
+		Floor: 8, MustExist: true, Run: runR146,
+	})
+}
+
+func runR146(c *Ctx) {
+	for _, tf := range c.pkgFuncs("pkg/blobstore/grpcclients") {
+		withAnon(tf, func(fn *ssa.Function) {
+			ei := errIndex(fn)
+			if ei < 0 || fn.Blocks == nil {
+				return
+			}
+			// error-producing values (call results) that are nil-tested
+			var errVals []ssa.Value
+			idxOf := func(v ssa.Value) int {
+				for i, e := range errVals {
+					if e == v {
+						return i
+					}
+				}
+				return -1
+			}
+			allInstrs(fn, func(ins ssa.Instruction) {
+				iff, ok := ins.(*ssa.If)
+				if !ok {
+					return
+				}
+				cond := iff.Cond
+				for {
+					if u, ok := cond.(*ssa.UnOp); ok && u.Op == token.NOT {
+						cond = u.X
+						continue
+					}
+					break
+				}
+				x, _, isT := nilTest(cond)
+				if !isT || !isErrorType(x.Type()) {
+					return
+				}
+				switch x.(type) {
+				case *ssa.Call, *ssa.Extract:
+					if idxOf(x) < 0 && len(errVals) < 30 {
+						errVals = append(errVals, x)
+					}
+				}
+			})
+			if len(errVals) == 0 {
+				return
+			}
+			name := FuncName(fn)
+			bad := ""
+			var badPos token.Pos
+			nFail := 0
+			// state: bit 0 = a failure edge was taken; bit i+1 = errVals[i] known nil
+			explorePaths(&pathSpec{Fn: fn, Init: 0,
+				Step: func(st int, ev pathEvent) int {
+					if ev.Cond == nil {
+						// a value that is computed anew is no longer known
+						if v, ok := ev.Ins.(ssa.Value); ok {
+							for i, e := range errVals {
+								if e == v {
+									st &^= 1 << (uint(i) + 1)
+								} else if ex, isEx := e.(*ssa.Extract); isEx && ex.Tuple == v {
+									st &^= 1 << (uint(i) + 1)
+								}
+							}
+						}
+						return st
+					}
+					cnd, v := ev.Cond, ev.Val
+					for {
+						if u, ok := cnd.(*ssa.UnOp); ok && u.Op == token.NOT {
+							cnd, v = u.X, !v
+							continue
+						}
+						break
+					}
+					x, nilWhenTrue, isT := nilTest(cnd)
+					if !isT {
+						return st
+					}
+					i := idxOf(x)
+					if i < 0 {
+						return st
+					}
+					if nilWhenTrue == v {
+						return st | 1<<(uint(i)+1)
+					}
+					return (st &^ (1 << (uint(i) + 1))) | 1
+				},
+				AtReturn: func(st int, r *ssa.Return, _ map[int]bool) {
+					if st&1 == 0 {
+						return
+					}
+					nFail++
+					res := returnedValue(r, ei)
+					known := isNilConst(res)
+					if i := idxOf(res); i >= 0 && st&(1<<(uint(i)+1)) != 0 {
+						known = true
+					}
+					if known && bad == "" {
+						bad, badPos = "a path on which a call failed returns an error value that the same path has established to be nil", r.Pos()
+					}
+				}})
+			if nFail == 0 {
+				return
+			}
+			if bad != "" {
+				c.Fail(name, "failure-reported", c.Pos(badPos), bad+": the caller is told the operation succeeded (for Put: that the object was stored) although the stream broke")
+			} else {
+				c.Pass(name, "failure-reported", c.Pos(fn.Pos()), "no failure path returns a provably nil error")
+			}
+		})
+	}
+}
